@@ -134,6 +134,7 @@ namespace RCache
 inductive Kind
   | raw                      -- a SensorGetter is in the dict from the start
   | virt (deps : List Nat)   -- matches a virtual template; creation calls `get(d)` for each dep
+  | missing                  -- neither in the dict nor matching a template: `get` raises KeyError
   deriving DecidableEq, Repr, Inhabited
 
 inductive Entry
@@ -153,6 +154,8 @@ inductive FPC
   | store (v : Nat)                       -- `self._raw[name] = sensor_data`
   | rel (v : Nat)                         -- leaving the `with` of `get`
   | ret (v : Nat)                         -- `return sensor_data` (lock level already given back)
+  | relErr                                -- a KeyError leaves the `with` of `get`: the lock level is given back
+  | retErr                                -- the KeyError arrives in the caller (creation function or program)
   deriving DecidableEq, Repr, Inhabited
 
 structure Frame where
@@ -170,6 +173,7 @@ structure Local where
   todo : List Nat := []
   stack : List Frame := []
   results : List (Nat × Nat) := []
+  errs : List Nat := []          -- keys whose `get` raised KeyError into the thread's program (caught there)
   deriving DecidableEq, Repr, Inhabited
 
 structure State where
@@ -179,7 +183,7 @@ structure State where
   th : Tid → Local
 
 def init (c : Cfg) (prog : Tid → List Nat) : State :=
-  ⟨none, 0, fun k => match c.kind k with | .raw => some .getter | .virt _ => none,
+  ⟨none, 0, fun k => match c.kind k with | .raw => some .getter | .virt _ => none | .missing => none,
    fun t => { todo := prog t }⟩
 
 def canAcquire (c : Cfg) (s : State) (t : Tid) : Bool :=
@@ -213,6 +217,7 @@ def step (c : Cfg) (s : State) (t : Tid) : Option State :=
       | none =>
         match c.kind k with
         | .virt ds => some (setTop s t l k below (.deps ds []))
+        | .missing => some (setTop s t l k below .relErr)
         | .raw => none
     | .deps rem acc =>
       match rem with
@@ -242,6 +247,16 @@ def step (c : Cfg) (s : State) (t : Tid) : Option State :=
       | ⟨k', .deps (_ :: r) acc⟩ :: more =>
         some { s with th := upd s.th t { l with stack := ⟨k', .deps r (acc ++ [v])⟩ :: more } }
       | _ :: _ => none
+    | .relErr =>
+      some { s with owner := releaseOwner s, depth := s.depth - 1,
+                    th := upd s.th t { l with stack := ⟨k, .retErr⟩ :: below } }
+    | .retErr =>
+      match below with
+      | [] => some { s with th := upd s.th t { l with stack := [], errs := l.errs ++ [k] } }
+      | ⟨k', .deps (_ :: _) _⟩ :: more =>
+        -- the creation function does not catch it: the exception leaves the enclosing `get` as well
+        some { s with th := upd s.th t { l with stack := ⟨k', .relErr⟩ :: more } }
+      | _ :: _ => none
 
 def run (c : Cfg) : State → List Tid → Option State
   | s, [] => some s
@@ -257,6 +272,7 @@ inductive Reach (c : Cfg) (n : Nat) (prog : Tid → List Nat) : State → Prop
 def holds : FPC → Nat
   | .acq => 0
   | .ret _ => 0
+  | .retErr => 0
   | .setStore _ | .setRel _ => 2
   | _ => 1
 
@@ -296,6 +312,16 @@ def seqVal (c : Cfg) : Nat → Nat → Nat
     match c.kind k with
     | .raw => c.ext k
     | .virt ds => c.vf k (ds.map (seqVal c fuel))
+    | .missing => 0
+
+/-- sequential outcome of a key: does `get` raise -/
+def seqBad (c : Cfg) : Nat → Nat → Bool
+  | 0, k => match c.kind k with | .missing => true | _ => false
+  | fuel + 1, k =>
+    match c.kind k with
+    | .raw => false
+    | .virt ds => ds.any (seqBad c fuel)
+    | .missing => true
 
 end RCache
 
